@@ -80,7 +80,14 @@ def _stream(case):
             little = True if case['orders'] == 'le' else (False if case['orders'] == 'be' else i % 2 == 0)
             parts.append(R.encode_message(2, i + 1, {5: i + 1}, little=little))
         return b''.join(parts)
-    return b''.join(S.ref_message_bytes(m, le) for m, le in zip(case['msgs'], case['enc']))
+    assert len(case['msgs']) == len(case['enc']), 'harness: one byte order per message'
+    return b''.join(_encode(m, le) for m, le in zip(case['msgs'], case['enc']))
+
+
+def _encode(m, le):
+    extra = [tuple(e) for e in m.get('extra', [])]
+    order = m.get('order')
+    return S.ref_message_bytes(m, le, order, extra)
 
 
 def _check(case, chunks, setup):
@@ -179,7 +186,7 @@ def classify(case):
     off = p
     for m, le in zip(case['msgs'], case['enc']):
         starts.append(off)
-        off += len(S.ref_message_bytes(m, le))
+        off += len(_encode(m, le))
     data_len = off
     if case['mode'] in ('all1', 'all2', 'bytewise'):
         nt = True
@@ -190,6 +197,8 @@ def classify(case):
             labels.append('cut_in_fixed_header')
     if len(case['msgs']) >= 4:
         labels.append('msgs>=4')
+    if any(m.get('extra') for m in case['msgs']):
+        labels.append('unknown_header_field')
     if off - p > 60000:
         labels.append('stream>60KB')
     del data_len
@@ -202,10 +211,16 @@ def crlf_message(draw, depth, big=False):
     k = draw(st.integers(0, 3))
     if k == 0:
         m['serial'] = draw(st.sampled_from([0x0a0d, 0x0d0a0000, 0x0d0a0d0a, 0x000a0d00]))
-    elif k == 1:
+    if k == 1:
         m['sig'] = 's' + m['sig'] if len(m['sig']) < 200 else 's'
         m['trees'] = [draw(st.sampled_from(['\r\n', 'a\r\nb', '\r\n\r\n', 'BEGIN\r\n']))] + (
             m['trees'] if m['sig'] != 's' else [])
+    if draw(st.integers(0, 5)) == 0:
+        # a header field with a code this implementation does not know, at a drawn position among the known ones
+        t = draw(st.sampled_from(['s', 'u', 'ay', 'v']))
+        m['extra'] = [[draw(st.integers(10, 200)), t, draw(S.tree_for(t))]]
+        n = S.n_header_fields(m, 1)
+        m['order'] = draw(st.permutations(list(range(n))))
     return m
 
 
@@ -234,6 +249,9 @@ def short_case(draw, tier, mode, maxlen):
         for m in msgs:   # keep streams short: drop optional fields at random is done by the strategy; trim bodies
             if len(m['sig']) > 2:
                 m['sig'], m['trees'] = '', []
+            if m.get('extra'):      # the header changed: put the unknown field first
+                nf = S.n_header_fields(m, 1)
+                m['order'] = [nf - 1] + list(range(nf - 1))
         enc = [draw(st.booleans()) for _ in range(n)]
         setup = draw(st.sampled_from(['pre', 'server', 'client']))
         case = {'setup': setup, 'msgs': msgs, 'enc': enc, 'mode': mode, 'cuts': []}
